@@ -510,8 +510,8 @@ func (obj *DenseReal64VectorJointIterator) Index() int {
   return obj.idx
 }
 func (obj *DenseReal64VectorJointIterator) Ok() bool {
-  return !(obj.s1 == nil || obj.s1.GetFloat64() == 0.0) ||
-         !(obj.s2 == nil || obj.s2.GetFloat64() == 0.0)
+  return !(obj.s1 == nil || isNullScalar(obj.s1)) ||
+         !(obj.s2 == nil || isNullScalar(obj.s2))
 }
 func (obj *DenseReal64VectorJointIterator) Next() {
 next:
